@@ -410,6 +410,13 @@ func (ex *Exec) step(st *State, fr *Frame, instr ssa.Instruction, prev *ssa.Basi
 		// array value indexing
 		arr, ok := ex.val(st, fr, in.X).(Term)
 		idx, _ := ex.val(st, fr, in.Index).(Term)
+		if ok && kindOf(in.X.Type()) == KString {
+			ex.safe(st, And(Le(IntT(0), idx), Lt(idx, App(SInt, "blen", arr))), in, "index out of range")
+			r := App(SInt, "bat", arr, idx)
+			st.Assume(And(Le(IntT(0), r), Lt(r, IntT(256))))
+			fr.Regs[in] = r
+			return
+		}
 		at, isArr := in.X.Type().Underlying().(*types.Array)
 		if !ok || !isArr {
 			ex.unsupported("Index on %s", in.X.Type())
